@@ -159,10 +159,24 @@ def correlation(order: bool, dup: bool, late: bool, stray: bool, sched: List[int
     saved = appmod.threading
     appmod.threading = type("T", (), {"Event": CoopEvent, "Thread": saved.Thread, "Lock": threading.Lock})
     try:
-        b = B.Bench(n_peers=1, apps=((4, "auth"), (4, "auth")))
-        n, p = b.node, b.peers[0]
-        A, Bp = b.apps
-        c, s = b.make_ready(p)
+        two = bool(P.get("two_conns"))
+        if two:
+            # ONE application with two peers: both requests leave from the same application on different connections
+            # whose hop-by-hop generators happen to be at the same position
+            b = B.Bench(n_peers=2, apps=((4, "auth"),))
+            n, p = b.node, b.peers[0]
+            A = Bp = b.apps[0]
+            c, s = b.make_ready(b.peers[0], "10.0.1.1")
+            c_b, s_b = b.make_ready(b.peers[1], "10.0.1.2")
+            c.hop_by_hop_seq._sequence = 500
+            c_b.hop_by_hop_seq._sequence = 500
+            n.peer_route_select_func = lambda node, a, message, peers: peers[0 if message.session_id == "req;0" else 1]
+        else:
+            b = B.Bench(n_peers=1, apps=((4, "auth"), (4, "auth")))
+            n, p = b.node, b.peers[0]
+            A, Bp = b.apps
+            c, s = b.make_ready(p)
+            c_b = c
         results = {}
 
         def caller(i, app):
@@ -175,8 +189,13 @@ def correlation(order: bool, dup: bool, late: bool, stray: bool, sched: List[int
         def peer():
             sent = []
             while len(sent) < 2:
-                sent += drain(c)
+                sent += [(m, c) for m in drain(c)]
+                if c_b is not c:
+                    sent += [(m, c_b) for m in drain(c_b)]
                 yield coop.BLOCKED if len(sent) < 2 else 0
+            sent.sort(key=lambda x: x[0].session_id)
+            via = {id(m): cc for (m, cc) in sent}
+            sent = [m for (m, cc) in sent]
             idx = [0, 1] if not order else [1, 0]
             first = True
             for k in idx:
@@ -184,19 +203,20 @@ def correlation(order: bool, dup: bool, late: bool, stray: bool, sched: List[int
                 if late and first:
                     # the caller of this request gives up before the answer arrives
                     for a in (A, Bp):
-                        w = a._answer_waiting.get(req.header.hop_by_hop_identifier)
-                        if w is not None:
-                            w.event.timed_out = True
+                        hb_, ee_ = req.header.hop_by_hop_identifier, req.header.end_to_end_identifier
+                        for k_, w in list(a._answer_waiting.items()):          # whatever the table is keyed by
+                            if k_ == hb_ or k_ == (hb_, ee_):
+                                w.event.timed_out = True
                     yield 0
                     yield 0
                     yield 0
                     yield 0
                     yield 0
                 ans = B.cca(B.PEER_HOSTS[0], req.header.hop_by_hop_identifier, req.header.end_to_end_identifier, session=req.session_id)
-                n._receive_message(c, ans)
+                n._receive_message(via[id(req)], ans)
                 yield 0
                 if dup and first:
-                    n._receive_message(c, B.cca(B.PEER_HOSTS[0], req.header.hop_by_hop_identifier, req.header.end_to_end_identifier, session=req.session_id))
+                    n._receive_message(via[id(req)], B.cca(B.PEER_HOSTS[0], req.header.hop_by_hop_identifier, req.header.end_to_end_identifier, session=req.session_id))
                     yield 0
                 first = False
             if stray:
@@ -212,6 +232,13 @@ def correlation(order: bool, dup: bool, late: bool, stray: bool, sched: List[int
         coop.run_choices([caller(0, A), caller(1, Bp), peer()], choose, len(sched), max_steps=600)
         why = ""
         for i, app in ((0, A), (1, Bp)):
+            if two and i == 1:
+                kind, val = results.get(i, (None, None))
+                if kind is None:
+                    why = why or "caller 1 never returned"
+                elif kind == "answer" and val != "req;1":
+                    why = why or "caller 1 received the answer %r of somebody else" % (val,)
+                continue
             kind, val = results.get(i, (None, None))
             if kind is None:
                 why = "caller %d never returned" % i
@@ -219,7 +246,7 @@ def correlation(order: bool, dup: bool, late: bool, stray: bool, sched: List[int
                 why = "caller %d received the answer %r of somebody else" % (i, val)
             # unexpected answers: only those of this application's own requests
             for m in app.answers:
-                if m.session_id != "req;%d" % i:
+                if (not two) and m.session_id != "req;%d" % i:
                     why = why or "application %d's unexpected-answer handler got %r" % (i, m.session_id)
             if app._answer_waiting:
                 why = why or "waiting table of application %d not emptied" % i
@@ -254,6 +281,9 @@ def specs(tier, seed, carve):
                 out.append(dict(id="routing3/A%d_B%d_D%d" % (a, bm, md), fn="routing", params={"npeers": 3, "maskA": a, "maskB": bm, "maskD": md, "seq0": 2}, timeout=3000,
                                 bound="3 peers; A on %s, B on %s, default %s; all 4^3 state combinations; 3 realms; both senders" % (bin(a), bin(bm), bin(md))))
     slots = 1 if q else 2
+    for order in (False, True):
+        out.append(dict(id="correlation2/o%d/p%d" % (order, slots), fn="correlation", params={"slots": slots, "maxstep": 40, "order": order, "dup": False, "two_conns": True}, timeout=1200 if q else 6000,
+                        bound="ONE application sending 2 concurrent requests over two connections whose hop-by-hop generators are at the same position (equal hop-by-hop ids), answer order %s, late/stray symbolic, <= %d preemptions" % ("reversed" if order else "as sent", slots)))
     for order in (False, True):
         for dup in (False, True):
             out.append(dict(id="correlation/o%d_d%d/p%d" % (order, dup, slots), fn="correlation", params={"slots": slots, "maxstep": 40, "order": order, "dup": dup}, timeout=1200 if q else 6000,
